@@ -197,6 +197,8 @@ def run(ctx):
         ctx.rule("R11.9", "an unparsable environment word is a catchable parsing_error (R04.7: nothing noexcept on the way) and a token that spells the toggle's letter is offered to it (R12.1: only dash-less tokens are values)")
         share(ctx, "C04", ("R04.7",), "R11.9", "noexcept obligations shared with C04", 10)
         share(ctx, "C12", ("R12.1",), "R11.9", "value-token obligations shared with C12", 1)
+        share(ctx, "C03", ("R03.8",), "R11.9", "bound-variable-name obligations shared with C03", 1)
+        share(ctx, "C13", ("R13.9",), "R11.9", "single-source-of-declarations obligations shared with C13", 1)
     # ---- R11.4
     pe = one(ctx, "R11.4", NS + "toggle::parse_env_value")
     if pe:
